@@ -2,6 +2,10 @@
 From LedgerV Require Import Base.Prelude Gen.CsvFormat Gen.PayeeRule Model.Escape.
 Local Open Scope Z_scope.
 
+(* every statement below holds with and without --aux-date *)
+Section WithAuxFlag.
+Variable use_aux : bool.
+
 (* ------------------------------------------------------------------------------------------ *)
 (* replace_char                                                                                *)
 
@@ -177,7 +181,8 @@ Definition post_tokens (x : xact) (p : post) : list ltok :=
    state_tok (eff_state x p)] ++
   opt_tok (option_map a_text (p_cost p)) ++ opt_tok (p_note p) ++ [LClose].
 
-Definition xact_secs (x : xact) : Z := days_from_civil (x_year x) (x_month x) (x_day x) * 86400.
+Definition xact_secs (x : xact) : Z :=
+  let d := xact_date use_aux x in days_from_civil (fst (fst d)) (snd (fst d)) (snd d) * 86400.
 
 Definition xact_tokens (path : str) (x : xact) : list ltok :=
   [LStr path; LAtom (dec_Z (x_line x));
@@ -268,7 +273,7 @@ Lemma lexS_nil_nl r t : LX (10 :: r) = Some t -> LX (110 :: 105 :: 108 :: 10 :: 
 Proof. intros H. cbn in H. cbn. rewrite H. reflexivity. Qed.
 
 Lemma lexS_xact path x r t :
-  LX r = Some t -> LX (emacs_xact path x ++ r) = Some (xact_tokens path x ++ t).
+  LX r = Some t -> LX (emacs_xact use_aux path x ++ r) = Some (xact_tokens path x ++ t).
 Proof.
   intros H. unfold emacs_xact, emacs_xact_head, xact_tokens.
   fold (xact_secs x).
@@ -287,15 +292,15 @@ Qed.
 
 Lemma lexS_xacts path xs : forall r t,
   xs <> [] -> LX r = Some t ->
-  LX (40 :: emacs_xacts path xs ++ 41 :: r)
+  LX (40 :: emacs_xacts use_aux path xs ++ 41 :: r)
   = Some (flat_map (fun x => LOpen :: xact_tokens path x ++ [LClose]) xs ++ t).
 Proof.
   induction xs as [|x xs IH]; intros r t Hne H; [contradiction|].
   destruct xs as [|y xs].
   - cbn [emacs_xacts flat_map]. rewrite app_nil_r. cbn [app]. rewrite <- app_assoc. cbn [app].
     apply lexS_open. apply lexS_xact, lexS_close, H.
-  - change (emacs_xacts path (x :: y :: xs))
-      with (emacs_xact path x ++ [41; 10; 32; 40] ++ emacs_xacts path (y :: xs)).
+  - change (emacs_xacts use_aux path (x :: y :: xs))
+      with (emacs_xact use_aux path x ++ [41; 10; 32; 40] ++ emacs_xacts use_aux path (y :: xs)).
     change (flat_map (fun x0 => LOpen :: xact_tokens path x0 ++ [LClose]) (x :: y :: xs))
       with ((LOpen :: xact_tokens path x ++ [LClose]) ++
             flat_map (fun x0 => LOpen :: xact_tokens path x0 ++ [LClose]) (y :: xs)).
@@ -304,12 +309,12 @@ Proof.
     apply (IH r t); [discriminate|exact H].
 Qed.
 
-Lemma emacs_lex_lemma path xs : LX (emacs_out path xs) = Some (emacs_tokens path xs).
+Lemma emacs_lex_lemma path xs : LX (emacs_out use_aux path xs) = Some (emacs_tokens path xs).
 Proof.
   destruct xs as [|x xs]; [reflexivity|].
   unfold emacs_out, emacs_tokens.
-  change ([40; 40] ++ emacs_xacts path (x :: xs) ++ [41; 41; 10])
-    with (40 :: 40 :: emacs_xacts path (x :: xs) ++ 41 :: [41; 10]).
+  change ([40; 40] ++ emacs_xacts use_aux path (x :: xs) ++ [41; 41; 10])
+    with (40 :: 40 :: emacs_xacts use_aux path (x :: xs) ++ 41 :: [41; 10]).
   apply lexS_open. apply lexS_xacts; [discriminate|reflexivity].
 Qed.
 
@@ -546,8 +551,8 @@ Qed.
 Lemma csv_rows_forall (P : csv_quoter * str -> Prop) fmt xs :
   fmt <> [] ->
   (forall x p qf, In x xs -> In p (x_posts x) -> In qf fmt ->
-                  P (fst qf, field_value x p (snd qf))) ->
-  Forall (fun row => row <> [] /\ Forall P row) (csv_rows fmt xs).
+                  P (fst qf, field_value use_aux x p (snd qf))) ->
+  Forall (fun row => row <> [] /\ Forall P row) (csv_rows use_aux fmt xs).
 Proof.
   intros Hne H. apply Forall_forall. intros row Hin.
   unfold csv_rows in Hin. apply in_flat_map in Hin as [x [Hx Hin]].
@@ -563,7 +568,7 @@ Definition all_quoter (q : csv_quoter) (fmt : list (csv_quoter * csv_field)) : P
 
 Lemma csv_out_rfc_format fmt xs :
   fmt <> [] -> all_quoter QRfc fmt ->
-  csv_read_rfc (csv_out fmt xs) = Some (plain_rows (csv_rows fmt xs)).
+  csv_read_rfc (csv_out use_aux fmt xs) = Some (plain_rows (csv_rows use_aux fmt xs)).
 Proof.
   intros Hne Hq. apply csv_rfc_read_lemma. apply csv_rows_forall; [exact Hne|].
   intros x p qf _ _ Hin. unfold rfc_ok. cbn [fst]. rewrite (Hq qf Hin). exact I.
@@ -572,8 +577,8 @@ Qed.
 Lemma csv_out_default_rfc fmt xs :
   fmt <> [] -> all_quoter QDefault fmt ->
   (forall x p f, In x xs -> In p (x_posts x) ->
-                 ~ In 34 (field_value x p f) /\ ~ In 92 (field_value x p f)) ->
-  csv_read_rfc (csv_out fmt xs) = Some (plain_rows (csv_rows fmt xs)).
+                 ~ In 34 (field_value use_aux x p f) /\ ~ In 92 (field_value use_aux x p f)) ->
+  csv_read_rfc (csv_out use_aux fmt xs) = Some (plain_rows (csv_rows use_aux fmt xs)).
 Proof.
   intros Hne Hq Hf. apply csv_rfc_read_lemma. apply csv_rows_forall; [exact Hne|].
   intros x p qf Hx Hp Hin. unfold rfc_ok. cbn [fst snd]. rewrite (Hq qf Hin). apply Hf; assumption.
@@ -582,7 +587,7 @@ Qed.
 (* the backslash reader recovers every report written with quoted(), whatever the fields hold *)
 Lemma csv_out_default_bs fmt xs :
   fmt <> [] -> all_quoter QDefault fmt ->
-  csv_read_bs (csv_out fmt xs) = Some (plain_rows (csv_rows fmt xs)).
+  csv_read_bs (csv_out use_aux fmt xs) = Some (plain_rows (csv_rows use_aux fmt xs)).
 Proof.
   intros Hne Hq. apply csv_bs_read_lemma. apply csv_rows_forall; [exact Hne|].
   intros x p qf Hx Hp Hin. unfold bs_ok. cbn [fst]. rewrite (Hq qf Hin). exact I.
@@ -599,7 +604,7 @@ Proof.
   destruct (fst qf); destruct q; try discriminate; reflexivity.
 Qed.
 
-Lemma plain_rows_cells fmt x p : map snd (csv_cells fmt x p) = map (field_value x p) (map snd fmt).
+Lemma plain_rows_cells fmt x p : map snd (csv_cells use_aux fmt x p) = map (field_value use_aux x p) (map snd fmt).
 Proof. unfold csv_cells. rewrite !map_map. reflexivity. Qed.
 
 (* ------------------------------------------------------------------------------------------ *)
@@ -783,7 +788,7 @@ Proof.
   cbn [flat_map map rev]. rewrite <- !app_assoc. rewrite parse_xact, IH. reflexivity.
 Qed.
 
-Lemma emacs_read_lemma path xs : lisp_read (emacs_out path xs) = Some (emacs_sexp path xs).
+Lemma emacs_read_lemma path xs : lisp_read (emacs_out use_aux path xs) = Some (emacs_sexp path xs).
 Proof.
   unfold lisp_read. rewrite emacs_lex_lemma.
   destruct xs as [|x xs]; [reflexivity|].
@@ -907,8 +912,8 @@ Qed.
    NEXT line says Payee: Y *)
 Definition pw_entry (v : str) : mentry := (true, k_Payee, Some v).
 Definition pw_post : post :=
-  mkPost 3 0 0 [65] (mkAmt [36; 49] [80] (Some [36]) [49]) None None [] [pw_entry [89]].
-Definition pw_xact : xact := mkXact 1 2020 1 2 0 None [72] None [pw_entry [88]] [pw_post].
+  mkPost 3 0 0 [65] (mkAmt [36; 49] [80] (Some [36]) [49]) None None None None [] [pw_entry [89]].
+Definition pw_xact : xact := mkXact 1 2020 1 2 None 0 None [72] None [pw_entry [88]] [pw_post].
 
 Lemma xml_payee_fixed_refuted :
   exists x p, In p (x_posts x) /\ xml_payee x p <> post_payee_rule PayeeFixedAtPostingLine x p.
@@ -941,3 +946,79 @@ Proof.
   intros H1 H2 H3 Hr. unfold post_payee_rule, payee_stored, payee_from_tag, payee_at_parse.
   rewrite H1, H2, H3. destruct r; [reflexivity|reflexivity|contradiction].
 Qed.
+
+End WithAuxFlag.
+
+(* ------------------------------------------------------------------------------------------ *)
+(* dates: what each output lets a reader recover, against post_t::date()                       *)
+
+(* xml: the posting's <date> if present, else the transaction's; likewise <aux-date>, falling
+   back on the date when neither has one *)
+Definition xml_date (x : xact) (p : post) : ymd :=
+  match p_date p with Some d => d | None => x_primary x end.
+Definition xml_aux_date (x : xact) (p : post) : ymd :=
+  match p_aux p with
+  | Some d => d
+  | None => match x_aux x with Some d => d | None => xml_date x p end
+  end.
+
+Lemma xml_date_is_register x p : xml_date x p = post_date false x p.
+Proof. reflexivity. Qed.
+
+Lemma xml_aux_date_is_register x p : xml_aux_date x p = post_date true x p.
+Proof.
+  unfold xml_aux_date, xml_date, post_date, post_aux, post_primary, xact_date.
+  destruct (p_aux p); [reflexivity|]. destruct (x_aux x); reflexivity.
+Qed.
+
+(* which element carries which date *)
+Fixpoint assoc_child (key : str) (kids : list (str * ptree)) : option ptree :=
+  match kids with
+  | [] => None
+  | kc :: r => if str_eqb key (fst kc) then Some (snd kc) else assoc_child key r
+  end.
+Definition ptree_child (key : str) (pt : ptree) : option ptree :=
+  match pt with Node _ _ kids => assoc_child key kids end.
+Definition date_leaf (d : ymd) : ptree := leaf (fmt_ymd d).
+
+Lemma xact_date_element x : ptree_child k_date (put_xact x) = Some (date_leaf (x_primary x)).
+Proof. reflexivity. Qed.
+
+Lemma xact_aux_element x : ptree_child k_aux_date (put_xact x) = option_map date_leaf (x_aux x).
+Proof.
+  unfold put_xact, metadata_kids. cbn [ptree_child].
+  destruct (x_aux x); destruct (x_code x); destruct (x_note x); destruct (build_meta (x_meta x));
+    reflexivity.
+Qed.
+
+Lemma post_date_element x p : ptree_child k_date (put_post x p) = option_map date_leaf (p_date p).
+Proof.
+  unfold put_post, metadata_kids. cbn [ptree_child].
+  destruct (p_date p); destruct (p_aux p); destruct (is_nil (payee_from_tag x p));
+    destruct (p_cost p); destruct (p_note p);
+    destruct (build_meta (p_meta_inline p ++ p_meta_later p)); reflexivity.
+Qed.
+
+Lemma post_aux_element x p : ptree_child k_aux_date (put_post x p) = option_map date_leaf (p_aux p).
+Proof.
+  unfold put_post, metadata_kids. cbn [ptree_child].
+  destruct (p_date p); destruct (p_aux p); destruct (is_nil (payee_from_tag x p));
+    destruct (p_cost p); destruct (p_note p);
+    destruct (build_meta (p_meta_inline p ++ p_meta_later p)); reflexivity.
+Qed.
+
+(* emacs: one date per transaction *)
+Lemma emacs_date_without_posting_dates aux x p :
+  p_date p = None -> p_aux p = None -> post_date aux x p = xact_date aux x.
+Proof.
+  intros H1 H2. unfold post_date, post_aux, post_primary, xact_date. rewrite H1, H2.
+  destruct aux; [|reflexivity]. destruct (x_aux x); reflexivity.
+Qed.
+
+Definition dw_post : post :=
+  mkPost 2 0 0 [65] (mkAmt [36; 49] [80] (Some [36]) [49]) None None (Some (2021, 2, 11)) None [] [].
+Definition dw_xact : xact := mkXact 1 2021 2 10 (Some (2021, 3, 1)) 0 None [72] None [] [dw_post].
+
+Lemma emacs_date_differs :
+  exists x p, In p (x_posts x) /\ post_date false x p <> xact_date false x.
+Proof. exists dw_xact, dw_post. split; [left; reflexivity|]. vm_compute. discriminate. Qed.
